@@ -158,10 +158,10 @@ def _grid_shape(kind, num):
     P = lambda vs: rg.polygon_curve([(conv(F(a)), conv(F(b))) for a, b in vs])
     sq = lambda x, y, s: [(x, y), (x + s, y), (x + s, y + s), (x, y + s)]
     if kind == "simple":
-        return {"k": "simple", "curve": P([(0, 0), (5, 1), (F(7, 2), 6)])}
+        return {"k": "simple", "curve": P([(1, 2), (5, 1), (F(7, 2), 6)])}
     if kind == "connected":
-        return {"k": "connected", "curves": [P(sq(0, 0, 10)), rg.curve_reverse(P(sq(2, 3, F(5, 2))))]}
-    return {"k": "disjoint", "parts": [{"k": "simple", "curve": P(sq(0, 0, 3))}, {"k": "simple", "curve": P([(6, 1), (9, 2), (7, 5)])}]}
+        return {"k": "connected", "curves": [P(sq(1, 1, 10)), rg.curve_reverse(P(sq(3, 4, F(5, 2))))]}
+    return {"k": "disjoint", "parts": [{"k": "simple", "curve": P(sq(1, 1, 3))}, {"k": "simple", "curve": P([(6, 1), (9, 2), (7, 5)])}]}
 
 
 def judge_invalid(ctx, case):
